@@ -254,6 +254,16 @@ class SArr:
         return (len(self.items),)
 
     @property
+    def flags(self):
+        """only `writeable` is modelled, and only as a settable flag (nothing in the code under test writes into an array it froze)"""
+        fl = self.__dict__.get("_flags")
+        if fl is None:
+            import types
+            fl = types.SimpleNamespace(writeable=True, c_contiguous=True, f_contiguous=self.ndim == 1, owndata=True)
+            self.__dict__["_flags"] = fl
+        return fl
+
+    @property
     def ndim(self):
         return len(self.shape)
 
@@ -1089,17 +1099,20 @@ def var(a, **kw):
     return _wrap(_np.var(a, **kw))
 
 
-def cumsum(a, axis=None, dtype=None):
-    if _sym(a):
+def cumsum(a, axis=None, dtype=None, out=None):
+    if _sym(a) or isinstance(out, SArr):
         a = _A(a)
-        out = []
+        res = []
         acc = 0
         for x in a.items:
             if isinstance(x, SBool):
                 x = ite(x, 1, 0)
             acc = acc + x
-            out.append(acc)
-        return SArr(out, a.dtype if a.dtype.kind != "b" else "int64")
+            res.append(acc)
+        r = SArr(res, dtype if dtype is not None else (a.dtype if a.dtype.kind != "b" else "int64"))
+        return _into(out, r)
+    if out is not None:
+        return _np.cumsum(a, axis=axis, dtype=dtype, out=out)
     return _wrap(_np.cumsum(a, axis=axis, dtype=dtype))
 
 
